@@ -72,8 +72,8 @@ class LpPacketValue(TlvModel):
     next_hop_face_id = UintField(LpTypeNumber.NEXT_HOP_FACE_ID)
     cache_policy = ModelField(LpTypeNumber.CACHE_POLICY, CachePolicy)
     congestion_mark = UintField(LpTypeNumber.CONGESTION_MARK)
-    tx_sequence = BytesField(LpTypeNumber.TX_SEQUENCE)
     ack = BytesField(LpTypeNumber.ACK)
+    tx_sequence = BytesField(LpTypeNumber.TX_SEQUENCE)
     non_discovery = BoolField(LpTypeNumber.NON_DISCOVERY)
     prefix_announcement = BytesField(LpTypeNumber.PREFIX_ANNOUNCEMENT)
 
